@@ -28,7 +28,7 @@ def c15_check(src, ns):
             if name != "json":
                 ok = ok and y.unit is x.unit
             else:
-                try: ok = ok and (y == x or (y.unit.dimension is x.unit.dimension and abs(float(y.in_unit(x.unit).magnitude) - float(x.magnitude)) <= 1e-9 * abs(float(x.magnitude))))
+                try: ok = ok and (y.unit is x.unit or y == x or (y.unit.dimension is x.unit.dimension and abs(float(y.in_unit(x.unit).magnitude) - float(x.magnitude)) <= 1e-9 * abs(float(x.magnitude))))
                 except Exception: ok = False
             if not ok: bad.append("%s: %r came back as %r" % (name, x, y))
         else:
@@ -58,7 +58,8 @@ def run(tier, seed):
             parts.append(u if e == 1 else "%s**%d" % (u, e))
         us = "(" + " * ".join(parts) + ")"
         srcs.append(us)
-        srcs.append("(%s * %s)" % (rng.choice(["5", "2.5", "Decimal('1.25')", "-3", "0"]), us))
+        srcs.append("(%s * %s)" % (rng.choice(["5", "2.5", "Decimal('1.25')", "-3", "0", "2**53", "(-(2**53)-1)", "2**63", "10**30", "1e300", "float(2**60)", "-0.0",
+                                                  "Decimal('1E+40')", "Decimal('0.000')", "1e-320", "(7*10**400)"]), us))
     for i, u in enumerate(["Meter", "(Kilo*Meter)", "Hertz", "(Meter / Second)"]):
         for first, second in (("%d", "%d.0"), ("%d.0", "%d"), ("%d", "Decimal('%d')"), ("Decimal('%d')", "%d.0")):
             n_ = 40 + 7 * i + len(srcs) % 5
